@@ -10,7 +10,7 @@ Theorems about `Ecal.Debug` (model of `interpreter/debug.go`).
   old code: `lost_resume_reachable` (negative witness);
 * decision functions: `suspends_at_active_breakpoint`, `step_semantics_stepin`,
   `step_semantics_stepover`, `step_semantics_stepout`, and — for a thread in ANY debugging
-  situation — `suspends_whenever_arriving` with `line_tracks_last_visit`
+  situation — `suspends_whenever_arriving_partial` with `line_tracks_last_visit`
   (needs fix "stepping honours break points" in `VisitState`);
 * "observer only": in the model the debugger cannot touch the evaluator's state BY TYPE — a remark
   (`example`), not an obligation. For the Go CODE "same result, log and variables" is NOT a theorem:
@@ -290,10 +290,13 @@ example : ∃ (d : Dbg) (l : Loc), d.is = none ∧ bpActive d.bps l = true :=
 
 
 
-/-- **Attaching never crashes the program thread.** No visit function sets `crashed`: the one Go panic
-the model knew (`VisitStepOutState` popping an empty call stack — the debugger was attached while the
-call was running) is guarded; the return of such a call is ignored. -/
-theorem never_crashes (r : Run) (e : Ev) : (stepEv r e).crashed = r.crashed := by
+/-- REMARK, true BY CONSTRUCTION (no model function writes `crashed` any more; not an obligation): the one
+Go panic the model knew (`VisitStepOutState` popping an empty call stack — the debugger was attached while
+the call was running) is guarded in the code. NOT modelled: the sanity assertion of `VisitStepOutState`
+(`errorutil.AssertTrue`: the top of the recorded call stack equals the returning call) — the model keeps
+only the call DEPTH; a debugger detached inside one call and re-attached inside another sees a stale
+stack and panics there (declared assumption: enter/exit are properly nested while attached). -/
+example (r : Run) (e : Ev) : (stepEv r e).crashed = r.crashed := by
   have hv : ∀ (r : Run) (l : Loc), (visitState r l).crashed = r.crashed := by
     intro r l
     unfold visitState visitFresh
@@ -427,7 +430,7 @@ theorem step_semantics_stepin (r : Run) (is : IState) (hal : Alive r)
 (`enter`, a balanced body at any nesting without active break points, its `exit`) is passed
 without suspension — and the next node visited afterwards (on whatever line) suspends the
 thread at depth `n`. (Break points inside the call DO stop the thread:
-`suspends_whenever_arriving`.) -/
+`suspends_whenever_arriving_partial`.) -/
 theorem step_semantics_stepover (r : Run) (is : IState) (hal : Alive r)
     (his : r.d.is = some is) (hcmd : is.cmd = .stepOver)
     (l l' : Loc) (e : Bool) (body : List Ev) (hb : Balanced body)
@@ -586,12 +589,18 @@ theorem line_tracks_last_visit (r : Run) (l : Loc) (hal : Alive r) (is' : IState
       · exact park_line _ _ _ _ (by simp) h'
       · simp_all
 
-/-- **Suspension whenever the thread arrives at an active break point** — for a thread in
-ANY debugging situation (not interrogated, resumed, stepping in / over / out at any depth),
-except one that `StopThreads` has told to end: if the node lies on a line with an active
-break point and the thread comes from a different line (`line_tracks_last_visit`), it
-reports suspension there. -/
-theorem suspends_whenever_arriving (r : Run) (l : Loc) (hal : Alive r)
+/-- **Suspension whenever the thread arrives at an active break point** — PARTIAL.
+FULL statement wanted (not proved): for every trace `t` from a state without interrogation, if the
+position of the last node the thread executed before `visit l` differs from `l`, `l` has an active break
+point and the thread was not told to end, then `runTrace r (t ++ [visit l])` suspends at `l`.
+PROVED here: the single-step statement with the hypothesis on the MODEL FIELD `is.pos` (`is.pos ≠ l`), for
+a thread in any debugging situation (not interrogated, resumed, stepping in / over / out at any depth)
+except one that `StopThreads` has told to end. What ties `is.pos` to the trace: `line_tracks_last_visit`
+(after every `visit` an existing state carries that node's position); `enter` / `exit` / `finished` move
+`is.pos` only together with a reported suspension at that position (error stop at a returning call,
+stop before a call) — by inspection of `stepInState` / `stepOutState` after fix
+"error-pass-keeps-position", not by a theorem. MISSING: the induction over traces with a `lastAt` function. -/
+theorem suspends_whenever_arriving_partial (r : Run) (l : Loc) (hal : Alive r)
     (hbp : bpActive r.d.bps l = true)
     (hfrom : ∀ is, r.d.is = some is → is.pos ≠ l ∧ is.cmd ≠ .kill) :
     (stepEv r (.visit l)).susp = r.susp ++ [l] := by
@@ -673,30 +682,34 @@ type-check, an entry point is missing or something is `unresolved`, the lists pr
 (UNKNOWN: evidence note + amplified metamorphic search, no violation); an access outside the
 allowed list REFUTES the fact and breaks `observer_accesses_allowed`. -/
 
-/-- Every access the debugger's evaluator side may make, with its justification:
-* `scope:Parent`, `scope:Name` — navigation / name of a scope (getters of `varsScope`);
-* `scope:ToJSONObject` — the snapshot of a scope's values for `describe` (takes the scope's read
-  lock, marshals copies);
-* `ast:Equals` — sanity comparison of the step-in and step-out call nodes;
-* `ext:fmt.Sprintf[ast]` — the text of that sanity assertion prints the call stack;
-* `debugger:…` — the evaluator hands node, scope and thread id to the debugger interface
-  (`VisitState`, `VisitStepInState`, `VisitStepOutState`) and the provider's mutex table / thread pool
-  references (`SetLockingState`, `SetThreadPool`, stored once, read by `lockstate`); a sink execution tells
-  the debugger that the worker thread finished it (`RecordThreadFinished`: debugger data only).
-NOT allowed (any of these refutes the fact): `scope:SetValue`, `scope:SetLocalValue`, `scope:NewChild`
-(appends a child to the program's scope tree), `scope:Clear`, `scopepkg:*`, any `logger:*`, any
-`runtime:*` (evaluation), `astwrite:*`, `rtwrite:*`, `otherwrite:*`, `pkgvarwrite:*`. -/
-def allowedAccesses : List String :=
-  ["scope:Parent", "scope:Name", "scope:ToJSONObject", "ast:Equals", "ext:fmt.Sprintf[ast]",
-   "debugger:VisitState", "debugger:VisitStepInState", "debugger:VisitStepOutState",
-   "debugger:SetLockingState", "debugger:SetThreadPool", "debugger:RecordThreadFinished"]
+/-- Accesses that MUTATE the program's world or run its code — any of these REFUTES the fact:
+* `scope:SetValue`, `scope:SetLocalValue`, `scope:Clear`, `scope:NewChild` (appends a child to the program's
+  scope tree), any function of package `scope` (`scopepkg`);
+* any method of a logger (`logger`), any method of a runtime component (`runtime`: evaluation);
+* any assignment to a field of an AST node / runtime component / foreign struct or to a package variable
+  (`astwrite`, `rtwrite`, `otherwrite`, `pkgvarwrite`). -/
+def deniedAccess (cat detail : String) : Bool :=
+  cat == "scopepkg" || cat == "logger" || cat == "runtime" || cat == "astwrite" || cat == "rtwrite" ||
+  cat == "otherwrite" || cat == "pkgvarwrite" ||
+  (cat == "scope" && (detail == "SetValue" || detail == "SetLocalValue" || detail == "Clear" || detail == "NewChild"))
 
-/-- **Obligation over the regenerated fact (a), (b), (c).** The evaluator side of the debugger
-touches the program's scopes only through `Parent` / `Name` / `ToJSONObject`, calls no logger
-method, evaluates nothing, and assigns no field of an AST node, a runtime component, any foreign
-struct or a package variable. -/
+/-- Accesses ESTABLISHED as observations (informative; `props/C15.py` reports every access that is neither
+denied nor in this list as "not established" — an evidence note and an amplified metamorphic search, never
+a violation): scope navigation / name / snapshot (`Parent`, `Name`, `ToJSONObject`), the sanity comparison of
+the call nodes (`ast:Equals`) and its assertion text (`ext:fmt.Sprintf[ast]`), the calls through the debugger
+interface. -/
+def establishedReads : List (String × String) :=
+  [("scope", "Parent"), ("scope", "Name"), ("scope", "ToJSONObject"), ("ast", "Equals"), ("ext", "fmt.Sprintf[ast]"),
+   ("debugger", "VisitState"), ("debugger", "VisitStepInState"), ("debugger", "VisitStepOutState"),
+   ("debugger", "SetLockingState"), ("debugger", "SetThreadPool"), ("debugger", "RecordThreadFinished")]
+
+/-- **Obligation over the regenerated fact (a), (b), (c).** The evaluator side of the debugger (functions
+reachable from the visit functions, and the evaluator's debugger-attached regions) makes NO access of a
+denied kind: no mutating scope method, no logger call, no evaluation, no assignment to AST nodes, runtime
+components, foreign structs or package variables. Accesses of other kinds (read-only methods, formatting
+functions) do not affect this obligation. -/
 theorem observer_accesses_allowed :
-    Ecal.Gen.C15.observerAccesses.all (fun p => allowedAccesses.contains p.2) = true := by decide
+    Ecal.Gen.C15.observerAccesses.all (fun p => !deniedAccess p.2.1 p.2.2) = true := by decide
 
 /-- **Obligation (d), evaluator side only.** The fields of `ecalDebugger` itself are written under its
 write lock (exception: the `lastVisit` time stamp, under the read lock; only `StopThreads`' idle wait
